@@ -12,7 +12,7 @@ import c18_threads
 
 PROPERTY = 'C18'
 MANIFEST = {
- 'level_text': 'Lean 4 theorems, kernel-checked, in two layers. (0) CPython heapq as used by the scheduler: heappush and heapify establish/keep the heap invariant, heappop returns an entry of minimal due time and leaves a heap that with it is a permutation of the old one, hence the choice of the heap is always a pick the scheduler model accepts. (1) A model of supybot.schedule.Schedule, for every sequence of addEvent/addPeriodicEvent/removeEvent/rescheduleEvent/run/reset calls and clock advances, every program of event functions that themselves add, remove, reschedule, add periodic events or raise while running, and every way the heap resolves ties: the name invariant (heap names = keys of events, no name twice) holds in every reachable state and therefore run() never raises; registrations = fired + removed + discarded + still scheduled as multisets with pairwise distinct registration ids (each event fires at most once, a removed event never fires, everything that fired was registered); nothing fires before its due time has passed, each iteration fires an entry of minimal due time, and when run() returns nothing due is left; a fired event carries the function and arguments of its registration, also after rescheduleEvent (repaired: it dropped them), which moves exactly that entry; a raising function ends only its own body; a periodic wrapper with occurrences left re-registers itself whether or not its function raised; threads: the placement of the lock is extracted and for every interleaving of critical sections (addEvent, removeEvent, iterations of run(), reset, by any threads) the invariant holds at every lock release, run() never raises and never fires early, registrations stay exactly-once (after three repairs of the lock placement). The driver loop: drivers.run() removes a driver whose run() raises; over every history of API calls and rounds of drivers.run() the Schedule driver is never removed and each round leaves nothing due. (2) A model of the Scheduler plugin on top (event table with its str(id)/name keys and the int-vs-str naming discipline, add/remind/remove/repeat/list, _flush and the pickle, die — repaired: it now takes the saved events out of the schedule —, _restoreEvents with kept ids and the already-scheduled test, load/unload/reload/restart, other plugins scheduling, run): an invariant of every reachable state and the whole-history law added = ran + removed + pending, each added never removed one-shot command runs exactly once (every scheduled closure belongs to the live instance and has its table entry, every table entry has its closure scheduled under int(key) or the name, ids ascending and below the counter, the pickle well formed), hence no command runs for a dead instance or misses its entry; reload with events pending leaves the table unchanged and schedules exactly one entry per pending event. The id discipline is explicit: integer names and table ids are below schedule.counter in every reachable state, also right after _restoreEvents in a fresh process, hence an anonymous schedule.addEvent by any component never fails (ids_below_counter, anonymous_add_never_fails). The heap model also directs the search: HeapShapes.lean enumerates every insertion order of up to 8 distinct due times and removed position on which a removeEvent that restores the heap downwards only would break it; all of them (a seeded sample in the quick tier), and larger random heaps of that kind, are replayed on the real scheduler (removeEvent and rescheduleEvent) under the due-time-order oracle. Event functions raise exceptions of many kinds (OSError with an errno, KeyError(5), no / None / bytes / non-string arguments, multi-line and %-laden messages) with the production logging path running. Repeating events: _getNextRunIn puts a restored event strictly in the future on first_run + k * period (nextRunIn_on_grid); a running one is NOT kept on that grid, the periodic wrapper re-schedules from the moment it ran (recorded finding C18-repeat-drifts, witnessed on the live bot on every run). Both layers are tied to /repo by differential runs: seeded programs/operation sequences on the real Schedule object, and seeded command sequences (scheduler add/remind/remove/repeat/list, reload/unload/load Scheduler by an owner over IRC, restarts, clock advances) on a live bot with the virtual clock; the heap\'s choices are fed to the models, which check each is a minimum; the property statement is evaluated directly on the implementation (for the plugin: through the replies — every added, never removed command runs exactly once) to produce replays.',
+ 'level_text': 'Lean 4 theorems, kernel-checked, in two layers. (0) CPython heapq as used by the scheduler: heappush and heapify establish/keep the heap invariant, heappop returns an entry of minimal due time and leaves a heap that with it is a permutation of the old one, hence the choice of the heap is always a pick the scheduler model accepts. (1) A model of supybot.schedule.Schedule, for every sequence of addEvent/addPeriodicEvent/removeEvent/rescheduleEvent/run/reset calls and clock advances, every program of event functions that themselves add, remove, reschedule, add periodic events or raise while running, and every way the heap resolves ties: the name invariant (heap names = keys of events, no name twice) holds in every reachable state and therefore run() never raises; registrations = fired + removed + discarded + still scheduled as multisets with pairwise distinct registration ids (each event fires at most once, a removed event never fires, everything that fired was registered); nothing fires before its due time has passed, each iteration fires an entry of minimal due time, and when run() returns nothing due is left; a fired event carries the function and arguments of its registration, also after rescheduleEvent (repaired: it dropped them), which moves exactly that entry; a raising function ends only its own body; a periodic wrapper with occurrences left re-registers itself whether or not its function raised; threads: the placement of the lock is extracted and for every interleaving of critical sections (addEvent, removeEvent, iterations of run(), reset, by any threads) the invariant holds at every lock release, run() never raises and never fires early, registrations stay exactly-once (after three repairs of the lock placement). The driver loop: drivers.run() removes a driver whose run() raises; over every history of API calls and rounds of drivers.run() the Schedule driver is never removed and each round leaves nothing due. (2) A model of the Scheduler plugin on top (event table with its str(id)/name keys and the int-vs-str naming discipline, add/remind/remove/repeat/list, _flush and the pickle, die — repaired: it now takes the saved events out of the schedule —, _restoreEvents with kept ids and the already-scheduled test, load/unload/reload/restart, other plugins scheduling, run): an invariant of every reachable state and the whole-history law added = ran + removed + pending, each added never removed one-shot command runs exactly once (every scheduled closure belongs to the live instance and has its table entry, every table entry has its closure scheduled under int(key) or the name, ids ascending and below the counter, the pickle well formed), hence no command runs for a dead instance or misses its entry; reload with events pending leaves the table unchanged and schedules exactly one entry per pending event. The id discipline is explicit: integer names and table ids are below schedule.counter in every reachable state, also right after _restoreEvents in a fresh process, hence an anonymous schedule.addEvent by any component never fails (ids_below_counter, anonymous_add_never_fails). The heap model also directs the search: HeapShapes.lean enumerates every insertion order of up to 8 distinct due times and removed position on which a removeEvent that restores the heap downwards only would break it; all of them (a seeded sample in the quick tier), and larger random heaps of that kind, are replayed on the real scheduler (removeEvent and rescheduleEvent) under the due-time-order oracle. Event functions raise exceptions of many kinds (OSError with an errno, KeyError(5), no / None / bytes / non-string arguments, multi-line and %-laden messages) with the production logging path running. The two layers are linked by a theorem (plugin_refines_core): the schedule inside the plugin model is the core scheduler driven through its API — every history of plugin operations corresponds to a sequence of core calls (addEvent, removeEvent, valid picks of run(), clock ticks, a new process at a restart) reaching a core state with the same due times, names, counter and clock, where the core invariant holds. Repeating events: _getNextRunIn puts a restored event strictly in the future on first_run + k * period (nextRunIn_on_grid); a running one is NOT kept on that grid, the periodic wrapper re-schedules from the moment it ran (recorded finding C18-repeat-drifts, witnessed on the live bot on every run). Both layers are tied to /repo by differential runs: seeded programs/operation sequences on the real Schedule object, and seeded command sequences (scheduler add/remind/remove/repeat/list, reload/unload/load Scheduler by an owner over IRC, restarts, clock advances) on a live bot with the virtual clock; the heap\'s choices are fed to the models, which check each is a minimum; the property statement is evaluated directly on the implementation (for the plugin: through the replies — every added, never removed command runs exactly once) to produce replays.',
  'level_note': 'Trusted: Lean kernel; axioms propext/Classical.choice/Quot.sound only; heapq is modelled twice: as written in Lib/heapq.py (HeapHole.lean: _siftdown/_siftup moving a hole) and in swap form (Heap.lean), the two proved to compute the same lists (heapq_as_written); the literal transcription is compared after every call with the C module the bot uses and proved to keep the heap invariant and to pop a minimum, so the picks fed to the scheduler model are valid by theorem (heap_choice_is_valid_pick) and additionally checked per pop; str(int)/int(str) round trip for event ids (keys are modelled as Key.id n / Key.name s); the plugin model works on the abstract schedule justified by name_invariant (heap and events dict merged); the correspondence harnesses (generator quality bounds what they see); integer-valued virtual clock frozen during run(). Modelled: schedule.py completely except the lock; plugins/Scheduler/plugin.py: add, remind (as add), remove, repeat (--delay), list, _flush, die, _restoreEvents (incl. _getNextRunIn), the command/periodic closures with the instance that made them. Not modelled: unreadable or foreign pickles, old-format pickles without first_run/network, the text of the commands being replayed (C13/C14), non-Exception exceptions, event functions calling addPeriodicEvent(now=True) from inside a running event.',
  'technique': 'Lean 4 proof (induction over operation sequences and heap choices with invariants) + differential correspondence',
  'design_ref': 'DESIGN.md §6 C18',
@@ -26,7 +26,8 @@ THEOREMS = ['C18.name_invariant', 'C18.run_never_raises', 'C18.conservation', 'C
             'C18.lock_placement_ok', 'C18.threads_safe', 'C18.plugin_conservation', 'C18.plugin_exactly_once',
             'C18.heap_push_ok', 'C18.heap_heapify_ok', 'C18.heap_pop_ok', 'C18.heap_choice_is_valid_pick',
             'C18.schedule_driver_stays', 'C18.drivers_round_completes',
-            'C18.ids_below_counter', 'C18.anonymous_add_never_fails', 'C18.nextRunIn_on_grid', 'C18.heapq_as_written']
+            'C18.ids_below_counter', 'C18.anonymous_add_never_fails', 'C18.nextRunIn_on_grid', 'C18.heapq_as_written',
+            'C18.plugin_refines_core', 'C18.plugin_names_unique_by_refinement']
 TRUSTED = ['Lean 4.33.0 kernel; axioms ⊆ {propext, Classical.choice, Quot.sound}',
            'CPython heapq.heappop returns an entry with minimal due time (mytuple compares due times only); checked on every pop of the run',
            'harness/c18.py generators, instrumentation (virtual clock, recording heapq proxy, recording addEvent/removeEvent wrappers, instrumented event functions), canonicalisation; hex line protocol']
